@@ -229,7 +229,6 @@ def needEvict (c : Cfg) (ms : List Msg) (k : Nat) (single : Bool) : Nat :=
     let a := active + k - c.maxDepth
     let b := if c.deliveredRet > 0 then countP (fun m => isActive m || m.st == .delivered) ms + k - c.maxDepth else 0
     max a b
-  else if single then (if active ≥ c.maxDepth then 1 else 0)
   else active + k - c.maxDepth
 
 def pressureActive (c : Cfg) (ms : List Msg) : Bool :=
@@ -405,10 +404,8 @@ def step (c : Cfg) (now : Int) (q : Q) (op : Op) (ch : Choice) : Option (Q × Re
       if es.isEmpty then some (q, .enqueued 0) else
       withPrune c now q ch fun q1 => enqueueCore c now q1 es false ch
   | .dequeue route target batch ttl =>
-      -- memory: sweep, then prune; SQLite: prune, then (gated) sweep
-      let afterHousekeeping : Option Q :=
-        if c.memory then prune c now (sweep c now q) ch.gone
-        else (prune c now q ch.gone).map (sweep c now)
+      -- retention prune first, then the (on SQLite: gated) lease-expiry sweep — on every backend
+      let afterHousekeeping : Option Q := (prune c now q ch.gone).map (sweep c now)
       match afterHousekeeping with
       | none => none
       | some q1 =>
